@@ -22,7 +22,8 @@ EXTENDS Bisim, ModeInfer, SequencesExt
 
 CONSTANT Relax   \* "none": the type system.  "sub": the same without the substructural discipline (contexts are unrestricted, binders may
                  \* shadow, drop / split always allowed).  "indep": without the declaration of independence.  The relaxed systems only serve to
-                 \* say WHY an accepted program has no derivation: C05 (derivable once "sub" is relaxed), C06 (once "indep" is), C07 (otherwise).
+                 \* say WHY an accepted program has no derivation: C10 (derivable once "wf", the well-formedness of annotation types, is relaxed), C05 (once
+                 \* "sub" is), C06 (once "indep" is), C07 (otherwise).
 
 \* ------------------------------------------------------------------ written types of a dump
 AnnOf(t) == IF t.k \in {"up", "down", "none"} THEN Unset
@@ -44,7 +45,9 @@ WrittenDefs(P) == [i \in 1..Len(P.types) |-> [name |-> P.types[i].name, ann |-> 
 
 \* the moded type an annotation denotes
 Moded(W, t) == IF t.k = "none" THEN NoType ELSE InferType(W, AnnOf(t), StripM(t))
-AnnWF(W, t) == t.k # "none" /\ AnnOK(W, AnnOf(t), StripM(t))
+AnnWF(W, t) == t.k # "none" /\ (Relax = "wf" \/ AnnOK(W, AnnOf(t), StripM(t)))
+\* well-formedness of an annotation type (function signature, process type, cut annotation); dropped by Relax = "wf"
+AnnTypeWF(E, t) == Relax = "wf" \/ TypeWF(E, t)
 
 Weak(m) == Relax = "sub" \/ m \in {"rep", "aff"}
 Contr(m) == Relax = "sub" \/ m \in {"rep", "mul"}
@@ -194,14 +197,14 @@ TC(P, E, W, Rel, n, G, sh, A) ==
                       /\ fi # 0
                       /\ LET ST == U(Moded(W, P.funcs[fi].t)) IN
                          \* an annotation, when written, must be well formed and equal to what the callee provides (finding F22)
-                         /\ (nd.xt.k # "none" => AnnWF(W, nd.xt) /\ TypeWF(E, Moded(W, nd.xt)) /\ Eq(Moded(W, nd.xt), ST))
+                         /\ (nd.xt.k # "none" => AnnWF(W, nd.xt) /\ AnnTypeWF(E, Moded(W, nd.xt)) /\ Eq(Moded(W, nd.xt), ST))
                          /\ \A y \in DOMAIN S.L : Indep(ModeOf(S.L[y]), ModeOf(ST))
                          /\ Go(nd.body, S.L, x, ST)
                          /\ Go(nd.next, Plus(S.R, x, ST), sh, A)
                          /\ Indep(ModeOf(ST), ModeOf(A))
                  ELSE /\ AnnWF(W, nd.xt)
                       /\ LET XT == Moded(W, nd.xt) IN
-                         /\ TypeWF(E, XT)
+                         /\ AnnTypeWF(E, XT)
                          /\ LET XU == U(XT) IN
                             /\ XU.k # "none"
                             /\ \A y \in DOMAIN S.L : Indep(ModeOf(S.L[y]), ModeOf(XU))
@@ -288,10 +291,10 @@ FunctionsPrelim(P, E, W) ==
     /\ AllDistinct([i \in 1..Len(P.funcs) |-> P.funcs[i].name])
     /\ \A i \in 1..Len(P.funcs) :
          LET F == P.funcs[i] IN
-         /\ AnnWF(W, F.t) /\ TypeWF(E, Moded(W, F.t))
+         /\ AnnWF(W, F.t) /\ AnnTypeWF(E, Moded(W, F.t))
          /\ AllDistinct([j \in 1..Len(F.params) |-> F.params[j].id])
          /\ \A j \in 1..Len(F.params) :
-              /\ AnnWF(W, F.params[j].t) /\ TypeWF(E, Moded(W, F.params[j].t))
+              /\ AnnWF(W, F.params[j].t) /\ AnnTypeWF(E, Moded(W, F.params[j].t))
               /\ Indep(ModeOf(Moded(W, F.params[j].t)), ModeOf(Moded(W, F.t)))
 
 ProvNames(P) == UNION {{P.procs[i].provs[j] : j \in 1..Len(P.procs[i].provs)} : i \in 1..Len(P.procs)}
@@ -301,7 +304,7 @@ UsedBy(P, i) == FNset(P.nodes, P.procs[i].body) \ {P.procs[i].provs[j] : j \in 1
 ProcessesPrelim(P, E, W) ==
     /\ AllDistinct(FoldLeft(LAMBDA acc, i : acc \o P.procs[i].provs, <<>>, [i \in 1..Len(P.procs) |-> i]))
     /\ \A i \in 1..Len(P.procs) :
-         /\ AnnWF(W, P.procs[i].t) /\ TypeWF(E, Moded(W, P.procs[i].t))
+         /\ AnnWF(W, P.procs[i].t) /\ AnnTypeWF(E, Moded(W, P.procs[i].t))
          /\ (Len(P.procs[i].provs) > 1 => Contr(ModeOf(Moded(W, P.procs[i].t))))     \* several provider names = a split
          /\ UsedBy(P, i) \subseteq ProvNames(P)                                     \* closed programs: every free name is a process
     /\ (Relax = "sub" \/ \A i, j \in 1..Len(P.procs) : i # j => UsedBy(P, i) \cap UsedBy(P, j) = {})  \* a top-level name is used by one process only
